@@ -100,7 +100,7 @@ def gen_style(ch, label, body_p=0.3):
           "default_doc": ch.chance(label + ".ddoc", 0.3), "body": body}
     if ch.chance(label + ".docstyle", DOCSTYLE_P):
         # a function whose author writes google / numpydoc docstrings (sync itself always emits ReST)
-        st["docstyle"] = ch.choice(label + ".docstylev", ["google", "numpydoc"])
+        st["docstyle"] = ch.choice(label + ".docstylev", ["google", "numpydoc", "rest_compact"])
     return st
 
 
